@@ -141,21 +141,33 @@ def S_C07a():
     return img.header.binaryblock != before
 
 
+def _run_child_probe(code):
+    """run probe code in a child process inside a scratch directory that is removed afterwards, also
+    when the child dies; True = defect present (crash or wrong result)"""
+    import shutil
+    import subprocess
+    d = tempfile.mkdtemp(prefix='verif_probe_')
+    try:
+        env = dict(os.environ, VERIF_PROBE_DIR=d)
+        r = subprocess.run([sys.executable, '-c', code], capture_output=True, text=True, env=env, timeout=120)
+        return r.returncode != 0 or 'OK' not in r.stdout
+    finally:
+        shutil.rmtree(d, ignore_errors=True)
+
+
 def S_C09a():
     """save(load(p), p) on a plain file: run in a child, crash or wrong data = present."""
     import subprocess
     code = r'''
 import numpy as np, nibabel as nib, sys, os, tempfile
-d=tempfile.mkdtemp(); p=os.path.join(d,'a.nii')
+d=os.environ['VERIF_PROBE_DIR']; p=os.path.join(d,'a.nii')
 a=np.arange(40000,dtype='f8').reshape(100,20,20)
 nib.save(nib.Nifti1Image(a,np.eye(4)),p)
 img=nib.load(p); nib.save(img,p)
 b=np.asarray(nib.load(p).dataobj)
 print('OK' if np.array_equal(a,b) else 'WRONG')
 '''
-    env = dict(os.environ)
-    r = subprocess.run([sys.executable, '-c', code], capture_output=True, text=True, env=env, timeout=120)
-    return r.returncode != 0 or 'OK' not in r.stdout
+    return _run_child_probe(code)
 
 
 def S_C09d():
@@ -165,7 +177,7 @@ def S_C09d():
     code = r'''
 import numpy as np, nibabel as nib, sys, os, tempfile, warnings
 warnings.simplefilter('ignore')
-d = tempfile.mkdtemp()
+d = os.environ['VERIF_PROBE_DIR']
 ok = True
 for big in (True, False):
     for how in ('asarray', 'view'):
@@ -178,9 +190,7 @@ for big in (True, False):
         ok = ok and np.array_equal(np.asarray(nib.load(p).dataobj), a)
 print('OK' if ok else 'WRONG')
 '''
-    env = dict(os.environ)
-    r = subprocess.run([sys.executable, '-c', code], capture_output=True, text=True, env=env, timeout=120)
-    return r.returncode != 0 or 'OK' not in r.stdout
+    return _run_child_probe(code)
 
 
 def S_C09e():
@@ -190,7 +200,7 @@ def S_C09e():
     code = r'''
 import numpy as np, nibabel as nib, sys, os, tempfile, warnings
 warnings.simplefilter('ignore')
-d = tempfile.mkdtemp()
+d = os.environ['VERIF_PROBE_DIR']
 ok = True
 for big in (False, True):
     for how in ('fdata', 'asanyarray', 'asarray'):
@@ -207,9 +217,7 @@ for big in (False, True):
             and np.array_equal(new.get_fdata(), a)
 print('OK' if ok else 'WRONG')
 '''
-    env = dict(os.environ)
-    r = subprocess.run([sys.executable, '-c', code], capture_output=True, text=True, env=env, timeout=120)
-    return r.returncode != 0 or 'OK' not in r.stdout
+    return _run_child_probe(code)
 
 
 def S_C09c():
